@@ -122,3 +122,19 @@ func FragmentNames() (map[string]bool, bool) {
 	}
 	return nil, false
 }
+
+// OpaqueReasons reads, from the regenerated Gen file, why each type outside the fragment is Opaque.
+func OpaqueReasons() map[string]string {
+	out := map[string]string{}
+	for _, p := range []string{"../coq/Gen/PacketLayouts.v", "coq/Gen/PacketLayouts.v", "/verif/coq/Gen/PacketLayouts.v"} {
+		b, err := os.ReadFile(p)
+		if err != nil {
+			continue
+		}
+		for _, m := range regexp.MustCompile(`Opaque "([^"]+)" "([^"]*)"`).FindAllStringSubmatch(string(b), -1) {
+			out[m[1]] = m[2]
+		}
+		return out
+	}
+	return out
+}
